@@ -49,6 +49,22 @@ def _value(e):
     return e
 
 
+def _values(e, depth=0):
+    """the expressions whose value an expression can take when used as the source of an
+    assignment: through casts/parentheses, chained assignment (a = b = v), the comma operator
+    (x, v) and both arms of a conditional expression (c ? v1 : v2)"""
+    e = _strip(e)
+    if e is None or depth > 8:
+        return [e] if e is not None else []
+    k = e.get("k")
+    c = e.get("c") or []
+    if k == "BinaryOperator" and e.get("op") in ("=", ",") and len(c) == 2:
+        return _values(c[1], depth + 1)
+    if k in ("ConditionalOperator", "BinaryConditionalOperator") and len(c) == 3:
+        return _values(c[1], depth + 1) + _values(c[2], depth + 1)
+    return [e]
+
+
 def _is_null(e):
     e = _strip(e)
     return e is not None and (e.get("k") in _NULLS or (e.get("k") == "IntegerLiteral" and e.get("v") == 0))
@@ -269,9 +285,10 @@ def rule_newdelete(ctx):
             k = n.get("k")
             if k == "BinaryOperator" and n.get("op") == "=":
                 f = _field(n["c"][0])
-                v = _value(n["c"][1])
-                if f and D.is_ptr(n["c"][0].get("t", "")) and v is not None and v.get("k") == "CXXNewExpr":
-                    allocs.setdefault((f[0], f[1]), {})[(fn.sig, bool(v.get("array")))] = fn.where(n)
+                if f and D.is_ptr(n["c"][0].get("t", "")):
+                    for v in _values(n["c"][1]):
+                        if v.get("k") == "CXXNewExpr":
+                            allocs.setdefault((f[0], f[1]), {})[(fn.sig, bool(v.get("array")))] = fn.where(n)
             elif k == "CXXDeleteExpr" and n.get("c"):
                 f = _field(n["c"][0])
                 if f:
@@ -280,9 +297,9 @@ def rule_newdelete(ctx):
                     if tf and not _is_dtor(fn):
                         deleted.add(tf)
         for init in fn.rec.get("inits", []) or []:
-            v = _value(init.get("init"))
-            if init.get("field") and v is not None and v.get("k") == "CXXNewExpr" and fn.cls:
-                allocs.setdefault((strip_targs(fn.cls), init["field"]), {})[(fn.sig, bool(v.get("array")))] = fn.where(v)
+            for v in _values(init.get("init")):
+                if init.get("field") and v.get("k") == "CXXNewExpr" and fn.cls:
+                    allocs.setdefault((strip_targs(fn.cls), init["field"]), {})[(fn.sig, bool(v.get("array")))] = fn.where(v)
         # (b) a delete outside a destructor is followed by an assignment on every path
         for field in sorted(deleted):
             probs = dang.verdict(fn, field)
@@ -369,10 +386,7 @@ class _MemRepFn:
 
     def check_sources(self):
         probs = []
-        for site, rhs in self.writes():
-            v = _value(rhs)
-            if v is None:
-                continue
+        for site, v in [(site, v) for site, rhs in self.writes() for v in _values(rhs)]:
             if v.get("k") == "CXXNewExpr":
                 if not v.get("array"):
                     probs.append("%s: buffer allocated with scalar new" % self.fn.where(site))
@@ -388,7 +402,8 @@ class _MemRepFn:
                     continue
                 nulled = [n for n in self.fn.walk()
                           if n.get("k") == "BinaryOperator" and n.get("op") == "="
-                          and _is_param_field(n["c"][0], self.pf, d) is not None and _is_null(_value(n["c"][1]))]
+                          and _is_param_field(n["c"][0], self.pf, d) is not None
+                          and all(_is_null(w) for w in _values(n["c"][1]))]
                 if not any(self.cfg.postdominates(n, site) for n in nulled):
                     probs.append("%s: steals the buffer of %s without nulling %s.%s on every path afterwards"
                                  % (self.fn.where(site), p["name"], p["name"], self.pf))
@@ -461,8 +476,15 @@ class _MemRepFn:
             a, b = [_strip(x) for x in c["c"]]
             if a.get("k") == "UnaryExprOrTypeTraitExpr":
                 a, b = b, a
-            if b.get("k") != "UnaryExprOrTypeTraitExpr" or D._cv(b.get("argT", "")) != self.elem_type():
-                return "byte count does not use sizeof(%s)" % self.elem_type()
+            if b.get("k") != "UnaryExprOrTypeTraitExpr":
+                return "byte count is not size*sizeof(element)"
+            # sizeof(T)  or  sizeof expression  (sizeof *rep, sizeof rep[0], sizeof(x.rep[0]))
+            st = b.get("argT") or ((b.get("c") or [{}])[0].get("t", ""))
+            st = D._cv(st)
+            while st.endswith("&"):
+                st = st[:-1].rstrip()
+            if st != self.elem_type():
+                return "byte count does not use the size of an element (%s)" % self.elem_type()
             if not self.is_size(a, call):
                 return "element count `%s` is not the size of the source" % F.expr_text(a)
             return None
@@ -479,27 +501,78 @@ class _MemRepFn:
             return None if ok else "std::copy_n does not copy size elements from x.rep to rep"
         return "unrecognised copy call"
 
+    def loop_copies(self):
+        """element-wise copy loops  for (i = 0; i < size; ++i) rep[i] = x.rep[i];
+        -> [(site = the loop condition, None or what is wrong with the range)]"""
+        out = []
+        for n in self.fn.walk():
+            if n.get("k") != "ForStmt":
+                continue
+            body = n.get("body")
+            while body is not None and body.get("k") == "CompoundStmt" and len(body.get("c") or []) == 1:
+                body = body["c"][0]
+            body = _strip(body)
+            if body is None or body.get("k") != "BinaryOperator" or body.get("op") != "=":
+                continue
+            lhs, rhs = _strip(body["c"][0]), _strip(body["c"][1])
+            if lhs.get("k") != "ArraySubscriptExpr" or rhs is None or rhs.get("k") != "ArraySubscriptExpr":
+                continue
+            if not self.this_f(lhs["c"][0], self.pf) or not self.is_src_ptr(rhs["c"][0]):
+                continue
+            i1, i2 = _strip(lhs["c"][1]), _strip(rhs["c"][1])
+            cond = _strip(n.get("cond"))
+            if cond is None:
+                continue
+            why = None
+            same = (i1.get("k") == "DeclRefExpr" and i2.get("k") == "DeclRefExpr"
+                    and i1["ref"].get("decl") == i2["ref"].get("decl"))
+            if not same:
+                why = "copy loop reads and writes different positions"
+            else:
+                d = i1["ref"].get("decl")
+                is_i = lambda e: (_strip(e) or {}).get("k") == "DeclRefExpr" and _strip(e)["ref"].get("decl") == d
+                init = n.get("init")
+                zero = False
+                if init is not None and init.get("k") == "DeclStmt":
+                    zero = any(x.get("decl") == d and (_strip(x.get("init")) or {}).get("k") == "IntegerLiteral"
+                               and _strip(x["init"]).get("v") == 0 for x in init.get("decls", []))
+                elif init is not None and _strip(init).get("k") == "BinaryOperator" and _strip(init).get("op") == "=":
+                    a, b = _strip(init)["c"]
+                    zero = is_i(a) and (_strip(b) or {}).get("k") == "IntegerLiteral" and _strip(b).get("v") == 0
+                inc = _strip(n.get("inc"))
+                step = inc is not None and (
+                    (inc.get("k") == "UnaryOperator" and inc.get("op") == "++" and is_i(inc["c"][0])) or
+                    (inc.get("k") == "CompoundAssignOperator" and inc.get("op") == "+=" and is_i(inc["c"][0])
+                     and (_strip(inc["c"][1]) or {}).get("v") == 1))
+                bound = (cond.get("k") == "BinaryOperator" and cond.get("op") in ("<", "!=")
+                         and is_i(cond["c"][0]) and self.is_size(cond["c"][1], cond))
+                if not (zero and step and bound):
+                    why = "copy loop does not run over exactly [0, size of the source)"
+            out.append((cond, why))
+        return out
+
     def check_copy(self):
         probs = []
         fn, cfg = self.fn, self.cfg
-        copies = [n for n in fn.walk() if n.get("k") == "CallExpr"
-                  and strip_targs(n.get("callee") or "") in self.copy_names]
+        found = [(n, self.copy_ok(n)) for n in fn.walk() if n.get("k") == "CallExpr"
+                 and strip_targs(n.get("callee") or "") in self.copy_names] + self.loop_copies()
+        copies = [n for n, why in found]
         allocs, nulls = [], []
         for site, rhs in self.writes():
-            v = _value(rhs)
-            if v is not None and v.get("k") == "CXXNewExpr":
-                allocs.append((site, v))
-            elif _is_null(v):
+            vs = _values(rhs)
+            for v in vs:
+                if v.get("k") == "CXXNewExpr":
+                    allocs.append((site, v))
+            if vs and all(_is_null(v) for v in vs):
                 nulls.append(site)
         if not copies:
             elementwise = any(n.get("k") in ("ArraySubscriptExpr",) or (n.get("k") == "UnaryOperator" and n.get("op") == "*"
                               and (n.get("c") or [{}])[0].get("k") != "CXXThisExpr") for n in fn.walk())
             if elementwise:
-                raise AnalysisBroken("MemRep copy idiom in %s is not one of memcpy/std::copy/std::copy_n - "
-                                     "teach R-PAIR P3 the new form" % fn.key)
+                raise AnalysisBroken("MemRep copy idiom in %s is not one of memcpy/std::copy/std::copy_n/"
+                                     "for (i=0; i<size; ++i) rep[i] = x.rep[i] - teach R-PAIR P3 the new form" % fn.key)
             return ["the elements of the source are never copied"]
-        for c in copies:
-            why = self.copy_ok(c)
+        for c, why in found:
             if why:
                 probs.append("%s: %s" % (fn.where(c), why))
         for site, v in allocs:
@@ -615,12 +688,12 @@ def _alias_field(fx, model, scope_fns, cls, name):
         an = None
         for n in fn.walk():
             if n.get("k") == "BinaryOperator" and n.get("op") == "=" and _this_field(n["c"][0]) == field:
-                v = _value(n["c"][1])
                 if an is None:
                     an = D.Analysis(model, fn)
                     an._operands()
                     an._flow()
-                if v is not None and an.ptr_owners(v) == {"this"}:
+                vs = _values(n["c"][1])
+                if vs and all(an.ptr_owners(v) == {"this"} for v in vs):
                     out.append(n)
         return out
 
@@ -634,18 +707,18 @@ def _alias_field(fx, model, scope_fns, cls, name):
             if k == "BinaryOperator" and n.get("op") == "=":
                 f = _field(n["c"][0])
                 if f and f[:2] == field:
-                    v = _value(n["c"][1])
-                    if v is not None and v.get("k") == "CXXNewExpr":
-                        probs.append("assigned from new in %s - an owning pointer next to MemRep's buffer" % fn.sig)
-                    elif not _is_null(v):
-                        if an is None:
-                            an = D.Analysis(model, fn)
-                            an._operands()
-                            an._flow()
-                        own = an.ptr_owners(v) if v is not None else set()
-                        if own != {"this"} or _this_field(n["c"][0]) != field:
-                            probs.append("assigned in %s from `%s`, which is not a pointer into the object's own buffer"
-                                         % (fn.sig, F.expr_text(v)))
+                    for v in _values(n["c"][1]):
+                        if v.get("k") == "CXXNewExpr":
+                            probs.append("assigned from new in %s - an owning pointer next to MemRep's buffer" % fn.sig)
+                        elif not _is_null(v):
+                            if an is None:
+                                an = D.Analysis(model, fn)
+                                an._operands()
+                                an._flow()
+                            own = an.ptr_owners(v)
+                            if own != {"this"} or _this_field(n["c"][0]) != field:
+                                probs.append("assigned in %s from `%s`, which is not a pointer into the object's own "
+                                             "buffer" % (fn.sig, F.expr_text(v)))
         if not mine:
             continue
         # reads
@@ -833,8 +906,8 @@ def rule_shadow(ctx):
                 uses = [n for n in m.walk() if n.get("k") == "DeclRefExpr" and n["ref"].get("decl") == decl]
                 stored = any(n.get("k") == "BinaryOperator" and n.get("op") == "="
                              and _this_field(n["c"][0]) is not None and _this_field(n["c"][0])[1] == name
-                             and (_strip(n["c"][1]) or {}).get("k") == "DeclRefExpr"
-                             and _strip(n["c"][1])["ref"].get("decl") == decl for n in m.walk())
+                             and any(w.get("k") == "DeclRefExpr" and w["ref"].get("decl") == decl
+                                     for w in _values(n["c"][1])) for n in m.walk())
                 stored = stored or any(i.get("field") == name and (_strip(i.get("init")) or {}).get("k") == "DeclRefExpr"
                                        and _strip(i["init"])["ref"].get("decl") == decl
                                        for i in (m.rec.get("inits") or []))
